@@ -1,0 +1,24 @@
+//go:build verif
+
+package fs
+
+import "os"
+
+// VerifYield, when non-nil, is called between the system calls of lock acquisition and release
+// (verification builds only).
+var VerifYield func(label string)
+
+func verifYield(label string) {
+	if VerifYield != nil {
+		VerifYield(label)
+	}
+}
+
+// VerifKillLock simulates the death of the process holding the lock: the descriptor is closed
+// (which drops the flock) and the lock file is left in place.
+func VerifKillLock(l LockFile) error {
+	if f, ok := l.(*osLockFile); ok {
+		return f.File.Close()
+	}
+	return os.ErrInvalid
+}
